@@ -262,9 +262,11 @@ op = st.one_of(
     st.tuples(st.just("sync")),
 )
 
-boost = st.one_of(st.none(), st.fixed_dictionaries({
+nonzero = st.builds(lambda a, sg: a * sg, S.floats(0.05, 1.0), st.sampled_from([1.0, -1.0]))
+_boost = st.fixed_dictionaries({
     "x": st.lists(S.floats(-5.0, 5.0), min_size=3, max_size=3),
-    "v": st.lists(S.floats(-1.0, 1.0), min_size=3, max_size=3)}))
+    "v": st.lists(nonzero, min_size=3, max_size=3)})
+boost = st.one_of(st.none(), _boost, _boost, _boost)     # a non-zero total momentum in every component, mostly
 
 NON_WH = ["ias15", "bs", "leapfrog", "eos", "janus"]
 
